@@ -102,9 +102,20 @@ def build_harnesses(name, configs=("S",), extra=(), link_lib=True, cxx="g++"):
         return {c: f.result() for c, f in futs.items()}
 
 
-def run_harness(binp, lines=None, args=(), timeout=3000, env_extra=None):
+def default_timeout():
+    """A harness that loops forever on a broken tree must not hold a quick check for an hour."""
+    return 1500 if os.environ.get("VERIF_TIER", "quick") == "quick" else 7200
+
+
+def clamp_timeout(timeout):
+    dt = default_timeout()
+    return min(timeout or dt, dt) if os.environ.get("VERIF_TIER", "quick") == "quick" else (timeout or dt)
+
+
+def run_harness(binp, lines=None, args=(), timeout=None, env_extra=None):
     """Run one harness.  lines: input lines (or None when the harness generates its own cases from args).
     Returns (output_lines, crash or None).  A crash is attributed to the first input line without output."""
+    timeout = clamp_timeout(timeout)
     env = dict(os.environ)
     env["ASAN_OPTIONS"] = "detect_leaks=0:abort_on_error=0:allocator_may_return_null=1"
     env["UBSAN_OPTIONS"] = "print_stacktrace=0"
@@ -136,7 +147,8 @@ def run_harness(binp, lines=None, args=(), timeout=3000, env_extra=None):
     return out, crash
 
 
-def run_driver(mode, lines, timeout=3000):
+def run_driver(mode, lines, timeout=None):
+    timeout = clamp_timeout(timeout)
     p = subprocess.run([common.driver_path(), mode], input="\n".join(lines) + "\n", stdout=subprocess.PIPE,
                        stderr=subprocess.PIPE, text=True, timeout=timeout)
     if p.returncode != 0:
@@ -144,7 +156,7 @@ def run_driver(mode, lines, timeout=3000):
     return [l for l in p.stdout.split("\n") if l]
 
 
-def correspond(bins, mode, lines=None, harness_args=(), timeout=3000, env_extra=None):
+def correspond(bins, mode, lines=None, harness_args=(), timeout=None, env_extra=None):
     """Run every harness build on the same inputs, feed all outputs to the driver.
     Returns dict(results=[(verdict, line, cfg)], crashes=[...])."""
     results, crashes = [], []
